@@ -171,6 +171,19 @@ def cell_codec(ctx):
                     if v == 0:
                         res, _ = tables.arm_result(prog, fr, Sr, tg)
                         found = res is not None and "ValueRef" in str(res) and "Null" in str(res)
+        if not found:
+            # `if number == 0 { Ok(ValueRef::Null) } else { .. }`: a Null built where the read value is known to be 0
+            for bl in fr.blocks:
+                if bl["cleanup"]:
+                    continue
+                if not any(st["rhs"]["rv"] == "agg" and (st["rhs"].get("adt") or "").endswith("ValueRef") and st["rhs"].get("variant") == "Null" for st in bl["stmts"]):
+                    continue
+                fs = Sr.bool_facts_at(bl["id"])
+                if ("==", d) not in [tr for (e, tr, g) in fs if e == "discr(*p1)"]:
+                    continue
+                for (e, tr, g) in fs:
+                    if "Continue.0" in e and (tr == ("==", 0) or (e.endswith(" Eq c:0)") and tr is True) or (e.endswith(" Ne c:0)") and tr is False)):
+                        found = True
         ctx.check(found, R, "%s: stored 0 reads as Null" % name, "", "read_value(%s): a stored 0 is not mapped to ValueRef::Null" % name, fr.loc(), fn=fr.name, key="%s|null-r|%s" % (R, name))
         # writer: under ValueRef::Null the written constant is 0
         okw = False
@@ -251,7 +264,7 @@ def pool_codec(ctx):
     ctx.check(ok, R, "StringRef third-byte shift", "16 both ways", "StringRef::read shifts by %s, StringRef::write by %s" % ([o[1][1] for o in shl], [o[1][1] for o in shr]), fr.loc(), fn=fr.name)
     masks = sorted(o[1][1] for o in bw if o[0] == "BitAnd")
     ctx.check(masks == ["c:255", "c:65535"], R, "StringRef::write masks", str(masks), "StringRef::write masks with %s (expected 0xffff and 0xff)" % masks, fw.loc(), fn=fw.name)
-    ctx.check(any(o[0] == "BitOr" for o in br) and any(o[0] == "Eq" and o[1][1] == "c:0" for o in br), R, "StringRef::read combines and maps 0 to None", "",
+    ctx.check(any(o[0] == "BitOr" for o in br) and any(o[0] in ("Eq", "Ne") and o[1][1] == "c:0" for o in br), R, "StringRef::read combines and maps 0 to None", "",
               "StringRef::read does not OR the third byte in / map 0 to None", fr.loc(), fn=fr.name)
     # conditional third byte under the flag on both sides
     r3 = [(b, t) for b, t in fr.calls() if (t.get("callee") or "").endswith("read_u8")]
